@@ -260,11 +260,15 @@ package tree
 //@   requires structOK(t, left, nil) && t.nodes[left] && t.nodes[right] && left != t.root && right != t.root && left.parent == right.parent && right.pidx == left.pidx + 1
 //@   requires C02: deadOK(t)
 //@   requires right.n > 7 && left.n < 15
-//@   modifies left.n, right.n, left.keys, left.values, left.children, right.keys, right.values, right.children, right.parent.keys, right.parent.values, right.children[0].parent, all(left.pidx), t.val, t.locN, t.locI, all(t.root.sub)
+//@   modifies left.n, right.n, left.keys, left.values, left.children, right.keys, right.values, right.children, right.parent.keys, right.parent.values, right.children[0].parent, all(left.pidx), t.locN, t.locI, left.sub, right.sub
 //@   after call removeOne[2]: ghostmap c *node[K, V] . pidx := (c != nil && c == old(right.children[0])) ? old(left.n) + 1 : ((c != nil && old(c.parent) == right && t.nodes[c]) ? old(c.pidx) - 1 : old(c.pidx))
 //@   ensures structOK(t, nil, nil) && left.n == old(left.n) + 1 && right.n == old(right.n) - 1 && t.nodes == old(t.nodes) && t.root == old(t.root)
 //@   ensures C02: deadOK(t)
 //@   requires C01: swo(t) && ordOK(t)
+//@   ghost C01: left.sub := lambda kk K :: old(left.sub)[kk] || kk == old(left.parent.keys[left.pidx]) || (old(right.sub)[kk] && t.compare(kk, old(right.keys[0])) < 0)
+//@   ghost C01: right.sub := lambda kk K :: old(right.sub)[kk] && t.compare(old(right.keys[0]), kk) < 0
+//@   ghost C01: t.locI := lambda kk K :: kk == old(right.keys[0]) ? old(left.pidx) : (kk == old(left.parent.keys[left.pidx]) ? old(left.n) : (old(t.locN)[kk] == right ? old(t.locI)[kk] - 1 : old(t.locI)[kk]))
+//@   ghost C01: t.locN := lambda kk K :: kk == old(right.keys[0]) ? old(left.parent) : (kk == old(left.parent.keys[left.pidx]) ? left : old(t.locN)[kk])
 //@   trustens C01: ordS(t) && t.root.sub == old(t.root.sub)
 //@   ensures C01: valOK(t) && t.val == old(t.val)
 // data movement (proved): the separator right.parent.keys[left.pidx] goes to the end of left, right's first key goes up, right's first child becomes left's last
@@ -909,3 +913,94 @@ func verifClientIterateWhileMutating[K any, V any](c *cursor[K, V], k1 K, k2 K, 
 //@   requires forall a T, b T, c T {less(a, b), less(b, c)} {less(b, a), less(c, b)} :: !less(a, b) && !less(b, a) && !less(b, c) && !less(c, b) ==> !less(a, c) && !less(c, a)
 //@   ensures fresh(result.t) && mOK(result.t) && result.t.size == 0 && (forall kk T {result.t.root.sub[kk]} :: !result.t.root.sub[kk])
 
+
+// ---- lemma clients (C01): the trusted "key half of the invariant holds again" of a rebalancing step is derived
+// here from that step's PROVED postconditions (structure, data movement, ghost set updates) alone ----
+
+//@ func verifClientLemmaRotateRight
+//@   props C01
+//@   derives btree.rotateRight
+//@   thoroughonly
+//@   budget 180
+//@   requires structOK(t, right, nil) && t.nodes[left] && t.nodes[right] && left != t.root && right != t.root && left.parent == right.parent && right.pidx == left.pidx + 1
+//@   requires left.n > 7 && right.n < 15
+//@   requires swo(t) && ordOK(t)
+//@   ensures true
+func verifClientLemmaRotateRight[K any, V any](t *btree[K, V], left, right *node[K, V]) {
+	p := left.parent
+	//@ assert hint(left.pidx) && hint(left.pidx + 1) && hint(left.n) && hint(left.n - 1) && hint(0) && hint(1)
+	//@ assert p.children[left.pidx] == left && p.children[left.pidx+1] == right && left.height == right.height
+	//@ assert forall kk K {left.sub[kk]} :: left.sub[kk] ==> p.sub[kk] && t.compare(kk, p.keys[left.pidx]) < 0
+	//@ assert forall kk K {right.sub[kk]} :: right.sub[kk] ==> p.sub[kk] && t.compare(p.keys[left.pidx], kk) < 0
+	//@ assert left.sub[left.keys[left.n-1]] && t.compare(left.keys[left.n-1], p.keys[left.pidx]) < 0
+	t.rotateRight(left, right)
+	//@ assert forall i int, j int {right.keys[i], right.keys[j]} :: 0 <= i && i < j && j < right.n ==> t.compare(right.keys[i], right.keys[j]) < 0
+	//@ assert forall i int, j int {left.keys[i], left.keys[j]} :: 0 <= i && i < j && j < left.n ==> t.compare(left.keys[i], left.keys[j]) < 0
+	//@ assert forall i int, j int {p.keys[i], p.keys[j]} :: 0 <= i && i < j && j < p.n ==> t.compare(p.keys[i], p.keys[j]) < 0
+	//@ assert forall j int, kk K {right.children[j].sub[kk]} :: right.height > 0 && 0 <= j && j <= right.n && right.children[j].sub[kk] ==> right.sub[kk] && (j < right.n ==> t.compare(kk, right.keys[j]) < 0) && (j > 0 ==> t.compare(right.keys[j-1], kk) < 0)
+	//@ assert forall kk K, j int {right.sub[kk], hint(j)} {right.sub[kk], hint(j-1)} {right.sub[kk], hint(j+1)} :: j == 0 && right.sub[kk] && 0 <= j && j <= right.n && (j > 0 ==> t.compare(right.keys[j-1], kk) < 0) && (j < right.n ==> t.compare(kk, right.keys[j]) < 0) ==> right.height > 0 && right.children[j].sub[kk]
+	//@ assert forall kk K, j int {right.sub[kk], hint(j)} {right.sub[kk], hint(j-1)} {right.sub[kk], hint(j+1)} :: j >= 1 && old(right.sub)[kk] && right.sub[kk] && 0 <= j && j <= right.n && (j > 0 ==> t.compare(right.keys[j-1], kk) < 0) && (j < right.n ==> t.compare(kk, right.keys[j]) < 0) ==> right.height > 0 && right.children[j].sub[kk]
+	//@ assert forall kk K, j int {right.sub[kk], hint(j)} {right.sub[kk], hint(j-1)} {right.sub[kk], hint(j+1)} :: j >= 1 && !old(right.sub)[kk] && right.sub[kk] && 0 <= j && j <= right.n && (j > 0 ==> t.compare(right.keys[j-1], kk) < 0) && (j < right.n ==> t.compare(kk, right.keys[j]) < 0) ==> right.height > 0 && right.children[j].sub[kk]
+	//@ assert forall kk K, j int {right.sub[kk], hint(j)} {right.sub[kk], hint(j-1)} {right.sub[kk], hint(j+1)} :: right.sub[kk] && 0 <= j && j <= right.n && (j > 0 ==> t.compare(right.keys[j-1], kk) < 0) && (j < right.n ==> t.compare(kk, right.keys[j]) < 0) ==> right.height > 0 && right.children[j].sub[kk]
+	//@ assert forall kk K, i int {right.sub[kk], right.keys[i]} :: right.sub[kk] && 0 <= i && i < right.n && t.compare(kk, right.keys[i]) == 0 ==> kk == right.keys[i]
+	//@ assert forall j int, kk K {left.children[j].sub[kk]} :: left.height > 0 && 0 <= j && j <= left.n && left.children[j].sub[kk] ==> left.sub[kk] && (j < left.n ==> t.compare(kk, left.keys[j]) < 0) && (j > 0 ==> t.compare(left.keys[j-1], kk) < 0)
+	//@ assert forall kk K, j int {left.sub[kk], hint(j)} {left.sub[kk], hint(j-1)} {left.sub[kk], hint(j+1)} :: left.sub[kk] && 0 <= j && j <= left.n && (j > 0 ==> t.compare(left.keys[j-1], kk) < 0) && (j < left.n ==> t.compare(kk, left.keys[j]) < 0) ==> left.height > 0 && left.children[j].sub[kk]
+	//@ assert forall kk K, i int {left.sub[kk], left.keys[i]} :: left.sub[kk] && 0 <= i && i < left.n && t.compare(kk, left.keys[i]) == 0 ==> kk == left.keys[i]
+	//@ assert forall j int, kk K {p.children[j].sub[kk]} :: p.height > 0 && 0 <= j && j <= p.n && p.children[j].sub[kk] ==> p.sub[kk] && (j < p.n ==> t.compare(kk, p.keys[j]) < 0) && (j > 0 ==> t.compare(p.keys[j-1], kk) < 0)
+	//@ assert forall kk K, j int {p.sub[kk], hint(j)} {p.sub[kk], hint(j-1)} {p.sub[kk], hint(j+1)} :: p.sub[kk] && 0 <= j && j <= p.n && (j > 0 ==> t.compare(p.keys[j-1], kk) < 0) && (j < p.n ==> t.compare(kk, p.keys[j]) < 0) ==> p.height > 0 && p.children[j].sub[kk]
+	//@ assert forall kk K, i int {p.sub[kk], p.keys[i]} :: p.sub[kk] && 0 <= i && i < p.n && t.compare(kk, p.keys[i]) == 0 ==> kk == p.keys[i]
+	//@ assert forall x *node[K, V], j int, kk K {x.children[j].sub[kk]} :: t.nodes[x] && x != left && x != right && x != p && x.height > 0 && 0 <= j && j <= x.n && x.children[j].sub[kk] ==> x.sub[kk] && (j < x.n ==> t.compare(kk, x.keys[j]) < 0) && (j > 0 ==> t.compare(x.keys[j-1], kk) < 0)
+	//@ assert forall x *node[K, V], j int {x.children[j]} :: t.nodes[x] && x != p && x != left && x != right && x.height > 0 && 0 <= j && j <= x.n ==> x.children[j] == old(x.children[j]) && x.children[j] != left && x.children[j] != right && x.children[j].sub == old(x.children[j].sub)
+	//@ assert forall x *node[K, V] {x.sub} :: t.nodes[x] && x != p && x != left && x != right ==> x.sub == old(x.sub) && x.n == old(x.n) && x.height == old(x.height)
+	//@ assert forall x *node[K, V], i int {x.keys[i]} :: x != p && x != left && x != right && 0 <= i && i < 15 ==> x.keys[i] == old(x.keys[i])
+	//@ assert forall x *node[K, V], kk K, j int {x.sub[kk], hint(j)} {x.sub[kk], hint(j-1)} {x.sub[kk], hint(j+1)} :: t.nodes[x] && x != left && x != right && x != p && x.sub[kk] && 0 <= j && j <= x.n && (j > 0 ==> t.compare(x.keys[j-1], kk) < 0) && (j < x.n ==> t.compare(kk, x.keys[j]) < 0) ==> x.height > 0 && x.children[j].sub[kk]
+	//@ assert forall x *node[K, V], kk K, i int {x.sub[kk], x.keys[i]} :: t.nodes[x] && x != left && x != right && x != p && x.sub[kk] && 0 <= i && i < x.n && t.compare(kk, x.keys[i]) == 0 ==> kk == x.keys[i]
+	//@ assert ordS(t)
+	//@ assert t.root.sub == old(t.root.sub)
+	_ = p
+	return
+}
+
+//@ func verifClientLemmaRotateLeft
+//@   props C01
+//@   derives btree.rotateLeft
+//@   thoroughonly
+//@   budget 180
+//@   requires structOK(t, left, nil) && t.nodes[left] && t.nodes[right] && left != t.root && right != t.root && left.parent == right.parent && right.pidx == left.pidx + 1
+//@   requires right.n > 7 && left.n < 15
+//@   requires swo(t) && ordOK(t)
+//@   ensures true
+func verifClientLemmaRotateLeft[K any, V any](t *btree[K, V], left, right *node[K, V]) {
+	p := left.parent
+	//@ assert hint(left.pidx) && hint(left.pidx + 1) && hint(left.n) && hint(left.n + 1) && hint(right.n) && hint(0) && hint(1)
+	//@ assert p.children[left.pidx] == left && p.children[left.pidx+1] == right && left.height == right.height
+	//@ assert forall kk K {left.sub[kk]} :: left.sub[kk] ==> p.sub[kk] && t.compare(kk, p.keys[left.pidx]) < 0
+	//@ assert forall kk K {right.sub[kk]} :: right.sub[kk] ==> p.sub[kk] && t.compare(p.keys[left.pidx], kk) < 0
+	//@ assert right.sub[right.keys[0]] && t.compare(p.keys[left.pidx], right.keys[0]) < 0
+	t.rotateLeft(left, right)
+	//@ assert forall i int, j int {right.keys[i], right.keys[j]} :: 0 <= i && i < j && j < right.n ==> t.compare(right.keys[i], right.keys[j]) < 0
+	//@ assert forall i int, j int {left.keys[i], left.keys[j]} :: 0 <= i && i < j && j < left.n ==> t.compare(left.keys[i], left.keys[j]) < 0
+	//@ assert forall i int, j int {p.keys[i], p.keys[j]} :: 0 <= i && i < j && j < p.n ==> t.compare(p.keys[i], p.keys[j]) < 0
+	//@ assert forall j int, kk K {right.children[j].sub[kk]} :: right.height > 0 && 0 <= j && j <= right.n && right.children[j].sub[kk] ==> right.sub[kk] && (j < right.n ==> t.compare(kk, right.keys[j]) < 0) && (j > 0 ==> t.compare(right.keys[j-1], kk) < 0)
+	//@ assert forall kk K, j int {right.sub[kk], hint(j)} {right.sub[kk], hint(j-1)} {right.sub[kk], hint(j+1)} :: right.sub[kk] && 0 <= j && j <= right.n && (j > 0 ==> t.compare(right.keys[j-1], kk) < 0) && (j < right.n ==> t.compare(kk, right.keys[j]) < 0) ==> right.height > 0 && right.children[j].sub[kk]
+	//@ assert forall kk K, i int {right.sub[kk], right.keys[i]} :: right.sub[kk] && 0 <= i && i < right.n && t.compare(kk, right.keys[i]) == 0 ==> kk == right.keys[i]
+	//@ assert forall j int, kk K {left.children[j].sub[kk]} :: left.height > 0 && 0 <= j && j <= left.n && left.children[j].sub[kk] ==> left.sub[kk] && (j < left.n ==> t.compare(kk, left.keys[j]) < 0) && (j > 0 ==> t.compare(left.keys[j-1], kk) < 0)
+	//@ assert forall kk K, j int {left.sub[kk], hint(j)} {left.sub[kk], hint(j-1)} {left.sub[kk], hint(j+1)} :: j == left.n && left.sub[kk] && 0 <= j && j <= left.n && (j > 0 ==> t.compare(left.keys[j-1], kk) < 0) && (j < left.n ==> t.compare(kk, left.keys[j]) < 0) ==> left.height > 0 && left.children[j].sub[kk]
+	//@ assert forall kk K, j int {left.sub[kk], hint(j)} {left.sub[kk], hint(j-1)} {left.sub[kk], hint(j+1)} :: j < left.n && old(left.sub)[kk] && left.sub[kk] && 0 <= j && j <= left.n && (j > 0 ==> t.compare(left.keys[j-1], kk) < 0) && (j < left.n ==> t.compare(kk, left.keys[j]) < 0) ==> left.height > 0 && left.children[j].sub[kk]
+	//@ assert forall kk K, j int {left.sub[kk], hint(j)} {left.sub[kk], hint(j-1)} {left.sub[kk], hint(j+1)} :: j < left.n && !old(left.sub)[kk] && left.sub[kk] && 0 <= j && j <= left.n && (j > 0 ==> t.compare(left.keys[j-1], kk) < 0) && (j < left.n ==> t.compare(kk, left.keys[j]) < 0) ==> left.height > 0 && left.children[j].sub[kk]
+	//@ assert forall kk K, j int {left.sub[kk], hint(j)} {left.sub[kk], hint(j-1)} {left.sub[kk], hint(j+1)} :: left.sub[kk] && 0 <= j && j <= left.n && (j > 0 ==> t.compare(left.keys[j-1], kk) < 0) && (j < left.n ==> t.compare(kk, left.keys[j]) < 0) ==> left.height > 0 && left.children[j].sub[kk]
+	//@ assert forall kk K, i int {left.sub[kk], left.keys[i]} :: left.sub[kk] && 0 <= i && i < left.n && t.compare(kk, left.keys[i]) == 0 ==> kk == left.keys[i]
+	//@ assert forall j int, kk K {p.children[j].sub[kk]} :: p.height > 0 && 0 <= j && j <= p.n && p.children[j].sub[kk] ==> p.sub[kk] && (j < p.n ==> t.compare(kk, p.keys[j]) < 0) && (j > 0 ==> t.compare(p.keys[j-1], kk) < 0)
+	//@ assert forall kk K, j int {p.sub[kk], hint(j)} {p.sub[kk], hint(j-1)} {p.sub[kk], hint(j+1)} :: p.sub[kk] && 0 <= j && j <= p.n && (j > 0 ==> t.compare(p.keys[j-1], kk) < 0) && (j < p.n ==> t.compare(kk, p.keys[j]) < 0) ==> p.height > 0 && p.children[j].sub[kk]
+	//@ assert forall kk K, i int {p.sub[kk], p.keys[i]} :: p.sub[kk] && 0 <= i && i < p.n && t.compare(kk, p.keys[i]) == 0 ==> kk == p.keys[i]
+	//@ assert forall x *node[K, V], j int, kk K {x.children[j].sub[kk]} :: t.nodes[x] && x != left && x != right && x != p && x.height > 0 && 0 <= j && j <= x.n && x.children[j].sub[kk] ==> x.sub[kk] && (j < x.n ==> t.compare(kk, x.keys[j]) < 0) && (j > 0 ==> t.compare(x.keys[j-1], kk) < 0)
+	//@ assert forall x *node[K, V], j int {x.children[j]} :: t.nodes[x] && x != p && x != left && x != right && x.height > 0 && 0 <= j && j <= x.n ==> x.children[j] == old(x.children[j]) && x.children[j] != left && x.children[j] != right && x.children[j].sub == old(x.children[j].sub)
+	//@ assert forall x *node[K, V] {x.sub} :: t.nodes[x] && x != p && x != left && x != right ==> x.sub == old(x.sub) && x.n == old(x.n) && x.height == old(x.height)
+	//@ assert forall x *node[K, V], i int {x.keys[i]} :: x != p && x != left && x != right && 0 <= i && i < 15 ==> x.keys[i] == old(x.keys[i])
+	//@ assert forall x *node[K, V], kk K, j int {x.sub[kk], hint(j)} {x.sub[kk], hint(j-1)} {x.sub[kk], hint(j+1)} :: t.nodes[x] && x != left && x != right && x != p && x.sub[kk] && 0 <= j && j <= x.n && (j > 0 ==> t.compare(x.keys[j-1], kk) < 0) && (j < x.n ==> t.compare(kk, x.keys[j]) < 0) ==> x.height > 0 && x.children[j].sub[kk]
+	//@ assert forall x *node[K, V], kk K, i int {x.sub[kk], x.keys[i]} :: t.nodes[x] && x != left && x != right && x != p && x.sub[kk] && 0 <= i && i < x.n && t.compare(kk, x.keys[i]) == 0 ==> kk == x.keys[i]
+	//@ assert ordS(t)
+	//@ assert t.root.sub == old(t.root.sub)
+	_ = p
+	return
+}
